@@ -14,6 +14,7 @@ NCLS = 8
 KW_KEYS = ["a", "b", "opts", "x.y", "lim"]
 NAME_PARTS = ["foo", "bar", "n_1"]
 MODREF = "harness.impl.compmod:K{}"
+DYNREF = "harness.impl.compmod:KD{}"      # a module attribute that is bound to a fresh class for every case
 BAD_TYPES = [{"s": "nosuch"}, {"s": "notacomp"}, {"s": "harness.impl.compmod:NotAComponent"},
              {"s": "harness.impl.compmod:Missing"}, {"o": "5"}]
 
@@ -23,6 +24,8 @@ def resolve_table() -> list[list[Any]]:
     for i in range(NCLS):
         t.append([f"ep{i}", i])
         t.append([MODREF.format(i), i])
+    for i in range(NCLS):
+        t.append([DYNREF.format(i), i])
     t.append(["notacomp", 99])
     t.append(["harness.impl.compmod:NotAComponent", 99])
     return t
@@ -32,9 +35,11 @@ def type_ref(rng: random.Random, i: int) -> dict[str, Any]:
     r = rng.random()
     if r < 0.4:
         return {"c": i}
-    if r < 0.7:
+    if r < 0.65:
         return {"s": f"ep{i}"}
-    return {"s": MODREF.format(i)}
+    if r < 0.85:
+        return {"s": MODREF.format(i)}
+    return {"s": DYNREF.format(i)}
 
 
 def gen_alias(rng: random.Random, i: int, explicit_type: bool, used: set[str]) -> str:
@@ -166,7 +171,7 @@ class C14(Prop):
             if ty.startswith("ep") and ty[2:].isdigit():
                 return int(ty[2:])
             if ty.startswith("harness.impl.compmod:K"):
-                return int(ty.rsplit("K", 1)[1])
+                return int(ty.rsplit("K", 1)[1].lstrip("D"))
             return None
         return getattr(ty, "n", None)
 
@@ -180,6 +185,16 @@ class C14(Prop):
 
         classes = {i: k for i, k in enumerate(compmod.CLASSES)}
         cls_ids = {k: i for i, k in classes.items()}
+        # `module:KDn` names a class made for this very case (as reloading a plugin module, or a test suite patching
+        # it, would rebind the attribute): a reference is resolved to what it denotes now
+        def rebind() -> None:
+            compmod.GENERATION += 1
+            for i, k in classes.items():
+                dyn = type(f"KD{i}", (k,), {"gen": compmod.GENERATION})
+                setattr(compmod, f"KD{i}", dyn)
+                cls_ids[dyn] = i
+
+        rebind()
         compmod.TABLE = {}
         for c in case["classes"]:
             kids = []
@@ -237,13 +252,15 @@ class C14(Prop):
                 # configuration is neither None nor a mapping (which of the two, and for which child, is only in
                 # the wording of the message)
                 out = {"status": "err", "err": "typeError"}
-            out["log"] = [{"cls": e["cls"], "kwargs": to_cfg(e["kwargs"], cls_ids)} for e in compmod.LOG]
+            out["log"] = [{"cls": e["cls"] if e["gen"] in (None, compmod.GENERATION) else -2,      # -2: a class of an earlier case
+                           "kwargs": to_cfg(e["kwargs"], cls_ids)} for e in compmod.LOG]
             return out
 
         from ..impl import vclock
 
         first = vclock.run(once)
         unchanged = _deep_same(config, config0)
+        rebind()        # (the second start must use what the references denote by then)
         second = vclock.run(once)
         first["config_unchanged"] = unchanged and _deep_same(config, config0)
         first["second_equal"] = (second == {k: v for k, v in first.items() if k in second})
